@@ -21,7 +21,7 @@ import os
 MODULES = ['suit', 'pair', 'vul', 'player', 'bid', 'card', 'contract', 'score', 'bidding_phase', 'playing_phase', 'hands',
            'data_handler/abstract_classes', 'data_handler/pbn_handler/__init__', 'data_handler/pbn_handler/writer', 'data_handler/json_handler/writer',
            'data_handler/json_handler/parser', 'network_bridge/bidding_system', 'network_bridge/socket_interface', 'network_bridge/server',
-           'network_bridge/client', '_threads']
+           'network_bridge/client', '_threads', '_prelude_pbn', 'data_handler/pbn_handler/parser']
 
 # modules of which only the listed methods are translated (the rest of the module is threads, sockets and queues)
 SELECT = {'network_bridge/server': {'Server': ['hand_to_str', 'convert_vul', 'remove_alert_word'],
@@ -59,6 +59,23 @@ class _Date:
 
     def strftime(self, fmt):
         return self.text
+'''
+
+# the match object of the PBN parser's `re.search`: it is asked for its span
+PRELUDE_PBN = '''
+class _MatchS:
+    def __init__(self, texts, span):
+        self.texts = texts
+        self.span = span
+
+    def group(self, i):
+        return self.texts[i]
+
+    def start(self):
+        return self.span[0]
+
+    def end(self):
+        return self.span[1]
 '''
 
 # functions the theorems are about: (class or '', name)
@@ -144,6 +161,8 @@ class Translator:
     def source(self, m):
         if m == '_prelude':
             return PRELUDE
+        if m == '_prelude_pbn':
+            return PRELUDE_PBN
         if m == '_threads':
             # the thread classes, re-written into sequential code over an explicit world object (desugar_threads.py)
             if getattr(self, '_threads_src', None) is None:
@@ -646,6 +665,13 @@ class Translator:
                 return f'(.builtin .{f.attr} [{self.expr(f.value)}])'
             if f.attr == 'replace' and len(node.args) == 2 and not node.keywords:
                 return f'(.builtin .replace [{self.expr(f.value)}, {self.expr(node.args[0])}, {self.expr(node.args[1])}])'
+            if f.attr == 'find' and len(node.args) == 1 and not node.keywords:
+                return f'(.builtin .find [{self.expr(f.value)}, {self.expr(node.args[0])}])'
+            if f.attr == 'lstrip' and not node.args and not node.keywords:
+                return f'(.builtin .lstrip [{self.expr(f.value)}])'
+            if f.attr == 'split' and len(node.args) == 2 and not node.keywords and isinstance(node.args[1], ast.Constant) \
+                    and node.args[1].value == 1:
+                return f'(.builtin .splitOnce [{self.expr(f.value)}, {self.expr(node.args[0])}])'
             if f.attr == 'split' and len(node.args) == 1 and not node.keywords:
                 return f'(.builtin .split [{self.expr(f.value)}, {self.expr(node.args[0])}])'
             if isinstance(f.value, ast.Name) and f.value.id == 're' and 're' not in self.locals:
@@ -699,7 +725,20 @@ class Translator:
                 raise Skip(f're flags {ast.unparse(flags[0])}')
             ic = True
         icv = '(.const (.bool true))' if ic else '(.const (.bool false))'
+        if fn == 'sub' and isinstance(args[1], ast.Lambda) and len(args[1].args.args) == 1 and not args[1].args.defaults:
+            # re.sub(pat, lambda m: E, s) = ''.join(E if the piece is a match else the piece, for the pieces of s)
+            x = args[1].args.args[0].arg
+            pat, subj = self.expr(args[0]), self.expr(args[2])
+            self.locals.add(x)
+            body = self.expr(args[1].body)
+            mcls = f'(.const (.cls {self.ident("_Match")}))'
+            pieces = f'(.builtin .reSubPieces [{pat}, {subj}, {icv}, {mcls}, (.const (.int {self.ident("texts")}))])'
+            return (f'(.builtin .join [(.const (.str [])), (.comp {self.ident(x)} {pieces} none '
+                    f'(.ifexp (.builtin .isinstance [(.var {self.ident(x)}), {mcls}]) {body} (.var {self.ident(x)})))])')
         a = [self.expr(x) for x in args]
+        if fn == 'search' and getattr(self, 'span_matches', False):
+            return (f'(.builtin .reSearchSpan [{a[0]}, {a[1]}, {icv}, (.const (.cls {self.ident("_MatchS")})), '
+                    f'(.const (.int {self.ident("texts")})), (.const (.int {self.ident("span")}))])')
         if fn in ('match', 'fullmatch', 'search'):
             return (f'(.builtin .re{fn.capitalize()} [{a[0]}, {a[1]}, {icv}, (.const (.cls {self.ident("_Match")})), '
                     f'(.const (.int {self.ident("texts")}))])')
@@ -781,6 +820,9 @@ class Translator:
         if isinstance(st, ast.Expr):
             if isinstance(st.value, ast.Constant) and isinstance(st.value.value, str):
                 return None                                        # docstring
+            if isinstance(st.value, ast.Call) and isinstance(st.value.func, ast.Attribute) and \
+                    isinstance(st.value.func.value, ast.Name) and st.value.func.value.id == 'logger' and 'logger' not in self.locals:
+                return None                                        # a log call: no effect on the values
             if isinstance(st.value, ast.Call):
                 return self.call_stmt(st.value)
             return f'(.expr {self.expr(st.value)})'
@@ -836,7 +878,19 @@ class Translator:
         if isinstance(st, ast.For):
             if st.orelse:
                 raise Skip('for-else')
-            it = self.expr(st.iter)
+            mc = self.mutating_call(st.iter)
+            pre = None
+            if mc is not None:
+                # `for x in recv.m(..)` where m mutates its receiver (a generator method re-written to return its list):
+                # the call first (receiver written back), then the loop over what it returned
+                recv, mname, margs = mc
+                self.gen_tmp = getattr(self, 'gen_tmp', 0) + 1
+                tmp = f'_it{self.gen_tmp}'
+                self.locals.add(tmp)
+                pre = f'(.callMutRet (.var {self.ident(tmp)}) {recv} {self.ident(mname)} {self.elist(margs)})'
+                it = f'(.var {self.ident(tmp)})'
+            else:
+                it = self.expr(st.iter)
             if isinstance(st.target, ast.Name):
                 names = [st.target.id]
             elif isinstance(st.target, ast.Tuple) and all(isinstance(e, ast.Name) for e in st.target.elts):
@@ -845,7 +899,10 @@ class Translator:
                 raise Skip('for target')
             for n in names:
                 self.locals.add(n)
-            return f'(.for {self.elist([self.ident(n) for n in names])} {it}\n{self.stmts(st.body)})'
+            loop = f'(.for {self.elist([self.ident(n) for n in names])} {it}\n{self.stmts(st.body)})'
+            if pre is not None:
+                return f'(.ite (.const (.bool true))\n[{pre},\n{loop}]\n[])'
+            return loop
         if isinstance(st, ast.Return):
             return f'(.ret {self.expr(st.value) if st.value is not None else "(.const .none)"})'
         if isinstance(st, ast.Raise):
@@ -980,6 +1037,9 @@ class Translator:
 
     def func(self, fd, cname, kind):
         self.cur_class, self.cur_kind = cname, kind
+        ci_ = self.classes.get(cname) if cname else None
+        self.span_matches = bool(ci_ and ci_.module == 'data_handler/pbn_handler/parser')
+        self.gen_tmp = 0
         a = fd.args
         if a.vararg or a.kwarg or a.kwonlyargs or a.posonlyargs:
             raise Skip('parameter kinds')
@@ -996,6 +1056,8 @@ class Translator:
             raise Skip('first parameter is not cls')
         if kind.startswith('unsupported'):
             raise Skip(kind)
+        if any(isinstance(n, ast.Yield) for n in ast.walk(fd)):
+            fd = self.degenerate(fd)
         for n in ast.walk(fd):
             if isinstance(n, (ast.FunctionDef, ast.Try, ast.With, ast.Yield, ast.YieldFrom, ast.Global, ast.Nonlocal,
                               ast.Delete, ast.Import, ast.ImportFrom, ast.ClassDef, ast.AsyncFunctionDef, ast.Await)) and n is not fd:
@@ -1009,6 +1071,30 @@ class Translator:
         return ('{\n  params := ' + self.elist([self.ident(p) for p in params]) + ',\n  defaults := ' + self.elist(defaults) +
                 ',\n  body := ' + body + ' }')
 
+    def degenerate(self, fd):
+        """a generator function as the function returning the list of what it yields (its consumers are `for` loops that
+        run it to the end; side effects of the generator on `self` all happen before the loop body — adequate when the body
+        does not touch what the generator touches, which holds for `parse_all` / `parse_board_settings`)"""
+        import copy as _copy
+        fd = _copy.deepcopy(fd)
+
+        class T(ast.NodeTransformer):
+            def visit_Expr(self, node):
+                if isinstance(node.value, ast.Yield):
+                    return ast.Expr(value=ast.Call(func=ast.Attribute(value=ast.Name(id='_out', ctx=ast.Load()), attr='append',
+                                                                      ctx=ast.Load()), args=[node.value.value], keywords=[]))
+                return node
+
+            def visit_Return(self, node):
+                if node.value is None:
+                    return ast.Return(value=ast.Name(id='_out', ctx=ast.Load()))
+                return node
+        fd = T().visit(fd)
+        fd.body = [ast.Assign(targets=[ast.Name(id='_out', ctx=ast.Store())], value=ast.List(elts=[], ctx=ast.Load()), lineno=0)] + \
+            fd.body + [ast.Return(value=ast.Name(id='_out', ctx=ast.Load()))]
+        ast.fix_missing_locations(fd)
+        return fd
+
     # ------------------------------------------------------------------ output
     GROUPS = [('Base', ['_prelude', 'suit', 'pair', 'vul', 'player', 'bid', 'card', 'contract', 'score'], 100),
               ('Auction', ['bidding_phase'], 2000),
@@ -1019,7 +1105,8 @@ class Translator:
                         'data_handler/json_handler/writer', 'data_handler/json_handler/parser'], 5000),
               ('Net', ['network_bridge/bidding_system', 'network_bridge/socket_interface', 'network_bridge/server',
                        'network_bridge/client'], 6000),
-              ('Threads', ['_threads'], 7000)]
+              ('Threads', ['_threads'], 7000),
+              ('Pbn', ['_prelude_pbn', 'data_handler/pbn_handler/parser'], 8000)]
 
     def names_of(self, module):
         names = set()
@@ -1043,6 +1130,9 @@ class Translator:
                 names.add(n.name)
             elif isinstance(n, ast.keyword) and n.arg:
                 names.add(n.arg)
+        if module == 'data_handler/pbn_handler/parser':
+            # names the translator itself introduces there (generator result, loop temporaries)
+            names |= {'_out'} | {f'_it{k}' for k in range(1, 9)}
         return names
 
     def generate(self):
@@ -1193,7 +1283,7 @@ open Bridge.Py
 
 
 FILES = ['PyCoreBase.lean', 'PyCoreAuction.lean', 'PyCorePlay.lean', 'PyCoreHands.lean', 'PyCoreJson.lean', 'PyCoreNet.lean',
-         'PyCoreThreads.lean', 'PyCore.lean']
+         'PyCoreThreads.lean', 'PyCorePbn.lean', 'PyCore.lean']
 
 
 def generate(repo):
